@@ -3,6 +3,11 @@
 package vm
 
 import (
+	"context"
+	"math/big"
+
+	coretypes "github.com/artela-network/aspect-core/types"
+	"github.com/ethereum/go-ethereum/common"
 	"github.com/holiman/uint256"
 )
 
@@ -51,4 +56,180 @@ func VerifHarness_LoadParamBytes() {
 	j := verifU64("j")
 	verifAssume(j < l)
 	verifAssert(got[j] == in[h+32+j], "accept: decoded content")
+}
+
+func init() {
+	verifHarnesses["VerifHarness_ContextWriterRun"] = VerifHarness_ContextWriterRun
+	verifHarnesses["VerifHarness_AspContextRun"] = VerifHarness_AspContextRun
+	verifHarnesses["VerifHarness_UserOpSenderRun"] = VerifHarness_UserOpSenderRun
+}
+
+type verifHostCall struct {
+	kind  string
+	addr  common.Address
+	key   string
+	value []byte
+	hash  common.Hash
+}
+
+// verifInstallHost installs recording host callbacks and returns the record.
+func verifInstallHost(hostErr error, hostRet []byte, hostAddr common.Address) *[]verifHostCall {
+	calls := &[]verifHostCall{}
+	coretypes.SetAspectContext = func(ctx context.Context, aspectId common.Address, key string, value []byte) error {
+		*calls = append(*calls, verifHostCall{kind: "set", addr: aspectId, key: key, value: value})
+		return hostErr
+	}
+	coretypes.GetAspectContext = func(ctx context.Context, aspectId common.Address, key string) ([]byte, error) {
+		*calls = append(*calls, verifHostCall{kind: "get", addr: aspectId, key: key})
+		return hostRet, hostErr
+	}
+	coretypes.JITSenderAspectByContext = func(ctx context.Context, h common.Hash) (common.Address, error) {
+		*calls = append(*calls, verifHostCall{kind: "jit", hash: h})
+		return hostAddr, hostErr
+	}
+	return calls
+}
+
+// abiBytesAt is the non-wrapping ABI decoding of parameter idx of (bytes,bytes).
+func abiBytesAt(in []byte, idx uint64) (ok bool, start, length uint64) {
+	n := uint64(len(in))
+	if n < idx*32+32 {
+		return false, 0, 0
+	}
+	H := new(uint256.Int).SetBytes32(in[idx*32 : idx*32+32])
+	if !verifAnd(H.IsUint64(), H.Uint64() <= n-32) {
+		return false, 0, 0
+	}
+	h := H.Uint64()
+	L := new(uint256.Int).SetBytes32(in[h : h+32])
+	if !verifAnd(L.IsUint64(), L.Uint64() <= n-32-h) {
+		return false, 0, 0
+	}
+	return true, h + 32, L.Uint64()
+}
+
+// VerifHarness_ContextWriterRun: precompile 0x66 body on an arbitrary payload.
+func VerifHarness_ContextWriterRun() {
+	max := int(verifParam("max"))
+	n := verifU64("len")
+	verifAssume(n <= uint64(max))
+	in := verifBytes("payload", n, max)
+	from := verifAddr("from")
+	hostErr := verifErrKind(verifIteU64(verifBool("hostfails"), 6, 0))
+	calls := verifInstallHost(hostErr, nil, common.Address{})
+	withCtx := verifBool("withctx")
+	var p PrecompiledContract = &contextWriter{}
+	if withCtx {
+		p = (&contextWriter{}).CloneWithCtx(&ExecutionContext{from: from, to: common.BytesToAddress([]byte{102}), gas: 1, value: new(big.Int)})
+	}
+	verifAssert(p.RequiredGas(in) == 5000, "C14: fixed fee")
+
+	out, err := p.Run(verifCtx, in)
+	verifReach("returned")
+	verifAssert(len(out) == 0, "C14: context write returns no data")
+
+	// the minimal ABI encoding of (bytes,bytes) is two head words and two length words
+	ok0, s0, l0 := false, uint64(0), uint64(0)
+	if n >= 128 {
+		ok0, s0, l0 = abiBytesAt(in, 0)
+	}
+	ok1, s1, l1 := false, uint64(0), uint64(0)
+	if ok0 {
+		ok1, s1, l1 = abiBytesAt(in, 1)
+	}
+	if !(ok0 && ok1) {
+		verifReach("malformed")
+		verifAssert(len(*calls) == 0, "C14: a malformed payload never reaches the host")
+		verifAssert(err != nil, "C14: malformed, truncated or overflowing payloads are rejected with an error")
+		return
+	}
+	if !withCtx {
+		verifReach("no-context")
+		verifAssert(len(*calls) == 0, "C14: without a caller context nothing is written")
+		verifAssert(err != nil, "C14: a context write without caller context is refused")
+		return
+	}
+	verifReach("accepted")
+	verifAssert(len(*calls) == 1, "C14: exactly one host write")
+	c := (*calls)[0]
+	verifAssert(c.kind == "set" && c.addr == from, "C14: write attributed to the calling contract")
+	verifAssert(uint64(len(c.key)) == l0 && uint64(len(c.value)) == l1, "C14: key and value lengths")
+	j := verifU64("j")
+	if verifBool("checkkey") {
+		verifAssume(j < l0)
+		verifAssert(c.key[j] == in[s0+j], "C14: key content")
+	} else {
+		verifAssume(j < l1)
+		verifAssert(c.value[j] == in[s1+j], "C14: value content")
+	}
+	verifAssert(err == hostErr, "C14: returns exactly the host's verdict")
+}
+
+// VerifHarness_AspContextRun: precompile 0x64 body.
+func VerifHarness_AspContextRun() {
+	max := int(verifParam("max"))
+	n := verifU64("len")
+	verifAssume(n <= uint64(max))
+	in := verifBytes("payload", n, max)
+	hostErr := verifErrKind(verifIteU64(verifBool("hostfails"), 6, 0))
+	hostRet := []byte{1, 2, 3}
+	calls := verifInstallHost(hostErr, hostRet, common.Address{})
+	p := &aspcontext{}
+	verifAssert(p.RequiredGas(in) == 5000, "C14: fixed fee")
+	out, err := p.Run(verifCtx, in)
+	verifReach("returned")
+	if n < 20 {
+		verifReach("truncated")
+		verifAssert(len(*calls) == 0, "C14: a truncated payload never reaches the host")
+		verifAssert(err != nil, "C14: malformed, truncated or overflowing payloads are rejected with an error")
+		return
+	}
+	verifReach("accepted")
+	verifAssert(len(*calls) == 1, "C14: exactly one host read")
+	c := (*calls)[0]
+	verifAssert(c.kind == "get" && c.addr == common.BytesToAddress(in[:20]), "C14: host gets the address in the payload")
+	verifAssert(uint64(len(c.key)) == n-20, "C14: host gets the key in the payload (length)")
+	j := verifU64("j")
+	verifAssume(j < n-20)
+	verifAssert(c.key[j] == in[20+j], "C14: host gets the key in the payload (content)")
+	verifAssert(err == hostErr, "C14: returns the host's error")
+	if hostErr == nil {
+		verifAssert(verifBytesEq(out, hostRet), "C14: returns exactly what the host returns")
+	} else {
+		verifAssert(len(out) == 0, "C14: no data on host error")
+	}
+}
+
+// VerifHarness_UserOpSenderRun: precompile 0x65 body.
+func VerifHarness_UserOpSenderRun() {
+	max := int(verifParam("max"))
+	n := verifU64("len")
+	verifAssume(n <= uint64(max))
+	in := verifBytes("payload", n, max)
+	hostErr := verifErrKind(verifIteU64(verifBool("hostfails"), 6, 0))
+	hostAddr := verifAddr("hostaddr")
+	calls := verifInstallHost(hostErr, nil, hostAddr)
+	p := &userOpSender{}
+	verifAssert(p.RequiredGas(in) == 5000, "C14: fixed fee")
+	out, err := p.Run(verifCtx, in)
+	verifReach("returned")
+	if n < 32 {
+		verifReach("truncated")
+		verifAssert(len(*calls) == 0, "C14: a truncated payload never reaches the host")
+		verifAssert(err != nil, "C14: malformed, truncated or overflowing payloads are rejected with an error")
+		return
+	}
+	if n > 32 {
+		// longer payloads: outside the claim (the property speaks of the hash contained in the payload)
+		return
+	}
+	verifReach("accepted")
+	verifAssert(len(*calls) == 1, "C14: exactly one host query")
+	c := (*calls)[0]
+	verifAssert(c.kind == "jit" && c.hash == common.BytesToHash(in), "C14: host gets exactly the hash in the payload")
+	verifAssert(err == hostErr, "C14: returns the host's error")
+	if hostErr == nil {
+		want := hostAddr.Hash()
+		verifAssert(verifBytesEq(out, want[:]), "C14: returns the 32-byte form of the host's address")
+	}
 }
